@@ -3,6 +3,8 @@ import B2Z.Model.SchemaJson
 import B2Z.Gen.Dtypes
 import B2Z.Gen.Reserved
 import B2Z.Gen.Constants
+import B2Z.Proofs.Schema
+import B2Z.Proofs.SchemaJson
 /-! # C10 — generated schemas always fit the data; user schemas are honoured exactly
 
 Model: `B2Z.Schema` (dtype choice, row encoders) and `B2Z.SchemaJson` (schema ⇄ JSON).
@@ -15,13 +17,13 @@ def dtRange (dt : String) : Int × Int :=
 /-- `min_int_dtype` returns the *first* (smallest) dtype whose range contains `[lo, hi]` -/
 theorem C10_min_int_dtype (lo hi : Int) (dt : String) (h : minIntDtype lo hi = some dt) :
     (dtRange dt).1 ≤ lo ∧ hi ≤ (dtRange dt).2 ∧ lo ≤ hi ∧ dt ∈ ["i1", "i2", "i4", "i8"] ∧
-    ∀ dt' ∈ intDtypes, dt'.2.2 < (dtRange dt).2 → ¬ (dt'.2.1 ≤ lo ∧ hi ≤ dt'.2.2) := by
-  sorry
+    ∀ dt' ∈ intDtypes, dt'.2.2 < (dtRange dt).2 → ¬ (dt'.2.1 ≤ lo ∧ hi ≤ dt'.2.2) :=
+  minIntDtype_spec lo hi dt h
 
 /-- the cast is the identity on the dtype's range -/
 theorem C10_cast_id (dt : String) (hdt : dt ∈ ["i1", "i2", "i4", "i8"]) (x : Int)
-    (h : (dtRange dt).1 ≤ x ∧ x ≤ (dtRange dt).2) : RIdx.wrap (dtypeBits dt) x = x := by
-  sorry
+    (h : (dtRange dt).1 ≤ x ∧ x ≤ (dtRange dt).2) : RIdx.wrap (dtypeBits dt) x = x :=
+  cast_id dt hdt x h
 
 /-- **C10 (fit)**: with the dtype generated from the observed bounds and the inner dimension from
     the observed maximum length, encoding a stored value never clips, wraps or truncates: the row
@@ -31,32 +33,71 @@ theorem C10_generated_fits (lo hi : Int) (dt : String) (hdt : minIntDtype lo hi 
     (xs : List Int) (hlen : xs.length ≤ w)
     (hv : ∀ x ∈ xs, x = VCF_INT_MISSING ∨ x = VCF_INT_FILL ∨ x = -1 ∨ x = -2 ∨ (lo ≤ x ∧ x ≤ hi)) :
     intRow dt w (some xs) = some (intRowSpec w (some xs)) ∧ intRow dt w none = some (intRowSpec w none) := by
-  sorry
+  obtain ⟨h1, h2, _, hmem, _⟩ := minIntDtype_spec lo hi dt hdt
+  have hs := dtRange_sentinels dt hmem
+  refine ⟨intRow_eq_spec dt hmem w xs hlen (fun x hx => ?_), rfl⟩
+  rcases hv x hx with h | h | h | h | h
+  · exact Or.inl h
+  · exact Or.inr (Or.inl h)
+  · exact Or.inr (Or.inr (by omega))
+  · exact Or.inr (Or.inr (by omega))
+  · exact Or.inr (Or.inr (by omega))
 
 /-- a field in which only missing values were seen gets `i1`, which holds the sentinels -/
 theorem C10_all_missing_fits (w : Nat) (xs : List Int) (hlen : xs.length ≤ w)
     (hv : ∀ x ∈ xs, x = VCF_INT_MISSING ∨ x = VCF_INT_FILL ∨ x = -1 ∨ x = -2) :
     intRow "i1" w (some xs) = some (intRowSpec w (some xs)) := by
-  sorry
+  refine intRow_eq_spec "i1" (by decide) w xs hlen (fun x hx => ?_)
+  rw [dtRange_i1]
+  rcases hv x hx with h | h | h | h
+  · exact Or.inl h
+  · exact Or.inr (Or.inl h)
+  · exact Or.inr (Or.inr (by subst h; decide))
+  · exact Or.inr (Or.inr (by subst h; decide))
 
 /-- **C10 (widening)**: replacing the dtype by a wider one changes no value -/
 theorem C10_widen_preserves (dt dt' : String) (hdt : dt ∈ ["i1", "i2", "i4", "i8"]) (hdt' : dt' ∈ ["i1", "i2", "i4", "i8"])
     (hw : dtypeBits dt ≤ dtypeBits dt') (w : Nat) (v : Option (List Int))
     (hfit : ∀ xs, v = some xs → ∀ x ∈ xs, x = VCF_INT_MISSING ∨ x = VCF_INT_FILL ∨ ((dtRange dt).1 ≤ x ∧ x ≤ (dtRange dt).2)) :
     intRow dt' w v = intRow dt w v := by
-  sorry
+  cases v with
+  | none => rfl
+  | some xs =>
+    have hm := dtRange_mono dt dt' hdt hdt' hw
+    unfold intRow
+    simp only
+    split
+    · rfl
+    · congr 2
+      apply List.map_congr_left
+      intro x hx
+      have hx' : x = VCF_INT_MISSING ∨ x = VCF_INT_FILL ∨ ((dtRangeH dt).1 ≤ x ∧ x ≤ (dtRangeH dt).2) :=
+        hfit xs rfl x hx
+      rw [sanitiseInt_eq dt hdt x hx', sanitiseInt_eq dt' hdt' x ?_]
+      rcases hx' with h | h | h
+      · exact Or.inl h
+      · exact Or.inr (Or.inl h)
+      · exact Or.inr (Or.inr (by omega))
 
 /-- a value longer than the inner dimension is an error, never a silent truncation -/
 theorem C10_no_silent_truncation (dt : String) (w : Nat) (xs : List Int) (h : w < xs.length) :
     intRow dt w (some xs) = none := by
-  sorry
+  unfold intRow
+  simp only
+  rw [if_pos h]
 
 /-- encoding is per array: dropping arrays from the schema leaves the others exactly as they were
     (each array is encoded by a function of its own spec and the store only) -/
 theorem C10_drop_optional {β : Type} (encodeArray : Spec → β) (specs : List Spec) (keep : Spec → Bool) :
     (specs.filter keep).map (fun s => (s.name, encodeArray s)) =
       ((specs.map fun s => (s, encodeArray s)).filter (fun p => keep p.1)).map (fun p => (p.1.name, p.2)) := by
-  sorry
+  induction specs with
+  | nil => rfl
+  | cons a l ih =>
+    simp only [List.filter_cons, List.map_cons]
+    cases keep a
+    · simpa using ih
+    · simpa using ih
 
 theorem C10_dtype_table : Gen.intDtypes = intDtypes := by decide
 
@@ -69,16 +110,16 @@ end B2Z.Schema
 namespace B2Z.SchemaJson
 
 /-- **C10 (round trip)**: a schema survives `asdict` → JSON → `fromdict` unchanged -/
-theorem C10_json_roundtrip (s : Schema) : Schema.ofJ s.formatVersion s.toJ = .ok s := by
-  sorry
+theorem C10_json_roundtrip (s : Schema) : Schema.ofJ s.formatVersion s.toJ = .ok s :=
+  schema_roundtrip s
 
-theorem C10_arrayspec_roundtrip (a : ArraySpec) : ArraySpec.ofJ a.toJ = some a := by
-  sorry
+theorem C10_arrayspec_roundtrip (a : ArraySpec) : ArraySpec.ofJ a.toJ = some a :=
+  arrayspec_roundtrip a
 
 /-- a schema file of another format version is rejected -/
 theorem C10_version_mismatch_rejected (s : Schema) (expected : String) (h : s.formatVersion ≠ expected) :
-    Schema.ofJ expected s.toJ = .error "ValueError: format version mismatch" := by
-  sorry
+    Schema.ofJ expected s.toJ = .error "ValueError: format version mismatch" :=
+  version_mismatch s expected h
 
 theorem C10_version_constant : Gen.ZARR_SCHEMA_FORMAT_VERSION = "0.4" := by decide
 
